@@ -140,7 +140,7 @@ def random_cmdline(rng, input_names):
     return args
 
 
-def bin_run(exe, wdir, files, args, wfault=None, timeout=20):
+def bin_run(exe, wdir, files, args, wfault=None, timeout=20, stdout_full=False):
     """run the real executable in a scratch directory; returns an `exit` event."""
     if os.path.isdir(wdir):
         shutil.rmtree(wdir)
@@ -154,14 +154,18 @@ def bin_run(exe, wdir, files, args, wfault=None, timeout=20):
     for root, _, names in os.walk(wdir):
         for n in names:
             before.add(os.path.relpath(os.path.join(root, n), wdir))
+    sink = open("/dev/full", "wb") if stdout_full else None      # a standard output that accepts nothing
     try:
-        p = common.patient_run([exe] + args[1:], timeout, cwd=wdir, stdout=subprocess.PIPE, stderr=subprocess.PIPE)
+        p = common.patient_run([exe] + args[1:], timeout, cwd=wdir, stdout=sink if sink else subprocess.PIPE, stderr=subprocess.PIPE)
         code, sig = p.returncode, 0
         if code < 0:
             sig, code = -code, 0
         err = p.stderr.decode("utf-8", "replace")
     except subprocess.TimeoutExpired:
         code, sig, err = 0, signal.SIGKILL, "timeout"
+    finally:
+        if sink:
+            sink.close()
     after = set()
     for root, _, names in os.walk(wdir):
         for n in names:
@@ -176,7 +180,7 @@ def bin_run(exe, wdir, files, args, wfault=None, timeout=20):
     bin_run.last_sizes = sizes
     shutil.rmtree(wdir, ignore_errors=True)
     # the failure is a write failure when the diagnostics say so
-    wf = bool(wfault) or "could not create file" in err or "could not write to file" in err
+    wf = bool(wfault) or "could not create file" in err or "could not write to file" in err or "could not write to the standard output" in err
     return {"code": code, "signal": sig, "errors": "error:" in err, "created": len(created),
             "wfault": wf, "mustfail": False}, created, err
 
@@ -325,6 +329,13 @@ def run_c03(ck):
         args = random_cmdline(rng, ["main.asm"])
         wfault = None
         c = rng.random()
+        if k < 4:
+            # one group delivers into a file that the program includes, a later group lists the program: the listing is
+            # of the sources as they were assembled (and certainly no crash on the replaced file)
+            files = {"main.asm": "#include \"inc.asm\"\n#d8 0xff\n",
+                     "inc.asm": "; c\u00f6mment " + "\u00e9" * (8 + 5 * k) + "\n#d8 0xc3, 0xa9, 0xc3\n#d8 0x80\n"}
+            args = ["customasm", "-q", "main.asm", "-f", "binary", "-o", "inc.asm", "--", "-f", ["annotated", "annotatedbin", "tcgame", "addrspan"][k], "-o", "list.txt"]
+            c = 1.0
         if c < 0.12:
             args += ["--", "-o", "/dev/full"]
             wfault = "/dev/full"
@@ -334,7 +345,10 @@ def run_c03(ck):
         elif c < 0.24:
             files.pop("other.asm")
             os.makedirs(bdir, exist_ok=True)
-        ev, created, err = bin_run(exe, os.path.join(bdir, str(k)), files, args, wfault=wfault)
+        # now and then the standard output itself takes nothing (a full device): whatever has to be printed
+        # there fails like a file that cannot be written - with a diagnostic, not with a panic
+        sfull = wfault is None and rng.random() < 0.1
+        ev, created, err = bin_run(exe, os.path.join(bdir, str(k)), files, args, wfault=wfault, stdout_full=sfull)
         if wfault and ev["code"] == 0 and ev["signal"] == 0:
             # success although an output path was made unwritable: legitimate only if nothing had to be written
             # there (help / version, an empty output).  The same command line with the path replaced by a
